@@ -10,6 +10,16 @@ E3 = "E3 cooperative scheduler + preemption-bounded DFS (harness/vsched, harness
 
 # id -> (level, engine, technique, text, note, design_ref)
 CHECKS = {
+    "C17": ("model_checking", E1 + " + " + E3,
+            "explicit-state enumeration (state x continuation) of snapshot/continue/restore histories on the real DbImpl + exhaustive 24-cell timeline table + preemption-bounded schedule exploration (with global-state-key pruning) of restore || reader || writer || Snapshot()/RootBucket user",
+            "Sequential: for every reachable state A of the index scenario (depth 1 quick / 2 thorough) and every continuation transaction: Snapshot, continuation, RestoreSnapshot; the full image equals A apart from the two markers, GetSnapshotId equals the returned id, each restore listener ran once, the first GetTimelineId issues a fresh id exactly once, the restored database answers reads and accepts every operation exactly like A (reference model), StreamToWriter yields an identical copy. Timeline bookkeeping: all 3 modes x marker x stored id x id-function outcome. Schedules: ALL interleavings with <= 2 (thorough: 3) preemptions at reloadLock operations, tracked spawns and in-transaction yield points; every transaction sees the old or the new database in full, the final image is restored or restored+writer, no deadlock, no panic.",
+            "bbolt API calls are atomic (its internal locks are not scheduling points); vsync.RWMutex reproduces Go's writer preference; one restore, one reader, one writer per schedule.",
+            "DESIGN.md §4 C17"),
+    "C18": ("model_checking", E3,
+            "preemption-bounded exhaustive schedule exploration (cooperative scheduler over the real DbImpl/bbolt, state-key pruning) with serial-state oracle; helper pairs under every schedule and pool answer; separate free-running -race pass over all unordered pairs of bodies",
+            "ALL schedules with <= 2 (thorough: 3) preemptions of one writer committing two multi-operation transactions (entity, unique index, set index, link buckets) and 1 (thorough: 2) reader(s) that read a marker, two index-backed queries (with in-scan yields through an ExternalSymbol), the unique index, the set index and links inside one View: every reader tuple equals the serial tuple of exactly one committed state and the final image is the serial result. Every unordered pair of package-level helpers (Parse valid/invalid/type-error with every pooled-instance answer, GetSymbol, three error classifiers) returns its sequential result under every explored schedule. Data races: every unordered pair of helper, reader and writer bodies runs free under the race detector (20 repetitions x 3 goroutines x 5 calls).",
+            "The cooperative scheduler cannot see unsynchronised accesses; that clause rests on the race detector over the enumerated body pairs (a detector, not an enumeration of memory orderings). bbolt API calls are atomic.",
+            "DESIGN.md §4 C18"),
     "C07": ("fault_enumeration", E1,
             "enumeration of (base state x transaction body x failure kind x failure position x route) on the real Db.Update/Batch path with storage-write fault points in bbolt and joined goroutines",
             "From every base state of a short kitchen-sink exploration, every single operation and all pairs (thorough: sampled triples) over a core alphabet are run with every failure kind at every position: caller error before each operation and after the last, operation rejected by the reference model (duplicate, missing target, restrict, unusable key), constraint veto for each of 6 stores x 3 change types, failing pre-commit action, and storage write k of N failing for EVERY k (fault points inserted into bbolt's write methods by the overlay); through Db.Update, nested Db.Update and Db.Batch. The failing store call and the transaction must return an error, the database must be byte-identical, and no listener, post-commit hook, commit action or tx-complete listener may run (all library goroutines are joined, no sleeps).",
